@@ -139,7 +139,7 @@ def run(tier: str, seed: int) -> int:
     failures, diffs = [], []
     known_ids = {f["id"] for f in chk.known}
     stats = {}
-    plan = [("funcs", 50 if tier == "quick" else 500), ("calls", 60 if tier == "quick" else 600), ("deep", 50 if tier == "quick" else 500), ("tco", 60 if tier == "quick" else 600)]
+    plan = [("funcs", 50 if tier == "quick" else 300), ("calls", 60 if tier == "quick" else 350), ("deep", 50 if tier == "quick" else 300), ("tco", 60 if tier == "quick" else 350)]
     with RaTap() as tap:
         for kind, n in plan:
             for i in range(n):
@@ -179,7 +179,7 @@ def run(tier: str, seed: int) -> int:
                         bad = None
                         if v.get("call_violations"):
                             bad = "call discipline broken: " + v["call_violations"][0]
-                        elif v["verdict"] in whole.BAD_VERDICTS and not (v["verdict"] == "trace-mismatch" and whole.nonfinite_in_trace(drv, prog, pool, es, budget["fuel"])):
+                        elif v["verdict"] in whole.BAD_VERDICTS and not v.get("ic_nonfinite") and not (v["verdict"] == "trace-mismatch" and whole.nonfinite_in_trace(drv, prog, pool, es, budget["fuel"])):
                             bad = f"arguments / result / behaviour differ from the source: {v['verdict']} (source {v.get('src_at')}, chip {v.get('ic_at')})"
                         if bad:
                             failures.append({"what": bad + f" [push_pop={pp}, tail_call={tco}]", "src": src, "prog": progen.jprogram(prog), "opts": opts, "pool": pool, "env_seed": es,
